@@ -78,7 +78,7 @@ async fn to<F: Future>(d: Duration, what: &str, f: F) -> Result<F::Output, Strin
     tokio::time::timeout(d, f).await.map_err(|_| format!("timeout:{what}"))
 }
 
-struct Case { path: String, limit: Option<u64>, flen: u64, id: u64 }
+struct Case { path: String, limit: Option<u64>, flen: u64, id: u64, qlen: Option<u64> }
 
 /// aborts the per-case server tasks when the case is over
 struct Tasks(Vec<tokio::task::JoinHandle<()>>);
@@ -126,7 +126,18 @@ impl Peer {
 
 async fn run_server_path(c: &Case) -> Result<String, String> {
     let is_notify = c.path == "push" || c.path == "broadcast";
-    let blen = (c.flen - 48 - QLEN) as usize;
+    // the route of a response path: `/r` (inline, proxy) or `/b` (off-reader), or,
+    // when the case carries `qlen`, `/` followed by a repeated character up to that length
+    let route: String = match (c.path.as_str(), c.qlen) {
+        (_, Some(n)) if is_notify || n < 8 => return Err("badcase:qlen".into()),
+        ("offreader", Some(n)) => format!("/{}", "b".repeat(n as usize - 1)),
+        (_, Some(n)) => format!("/{}", "r".repeat(n as usize - 1)),
+        ("offreader", None) => "/b".into(),
+        _ => "/r".into(),
+    };
+    let tlen = if is_notify { QLEN } else { route.len() as u64 };
+    if c.flen < 48 + tlen { return Err("badcase:flen-too-small".into()); }
+    let blen = (c.flen - 48 - tlen) as usize;
     if !is_notify && blen < 2 { return Err("badcase:flen-too-small".into()); }
     if is_notify && c.id != 0 { return Err("badcase:notify-id".into()); }
     let limits = limits_of(c.limit);
@@ -148,6 +159,12 @@ async fn run_server_path(c: &Case) -> Result<String, String> {
             *pr.lock().unwrap() = Some(r);
             Ok(json!(1))
         });
+    // the long route of this case (the router must know it before the server starts)
+    let router = match (c.qlen, c.path.as_str()) {
+        (None, _) => router,
+        (Some(_), "offreader") => router.with_json_blocking(&route, move |_| Ok(Value::String("a".repeat(rlen - 2)))),
+        (Some(_), _) => router.with_json(&route, move |_| Ok(Value::String("a".repeat(rlen - 2)))),
+    };
 
     let too_large = Arc::new(AtomicUsize::new(0));
     let registry = PeerRegistry::new();
@@ -184,8 +201,7 @@ async fn run_server_path(c: &Case) -> Result<String, String> {
 
     // the message under test
     let expected: Vec<u8> = match c.path.as_str() {
-        "inline" | "proxy" => { peer.send(frame(0, c.id, 1, 2, 0, b"/r", b"null")).await?; frame(0, c.id, 1, 2, 0, b"/r", &json_string_body(blen)) }
-        "offreader" => { peer.send(frame(0, c.id, 1, 2, 0, b"/b", b"null")).await?; frame(0, c.id, 1, 2, 0, b"/b", &json_string_body(blen)) }
+        "inline" | "proxy" | "offreader" => { peer.send(frame(0, c.id, 1, 2, 0, route.as_bytes(), b"null")).await?; frame(0, c.id, 1, 2, 0, route.as_bytes(), &json_string_body(blen)) }
         "push" => { peer.send(frame(0, trigger_id, 1, 2, 0, b"/p", b"null")).await?; frame(1, 0, 1, 0, 0, b"/n", &notify_body) }
         "broadcast" => {
             let t0 = Instant::now();
@@ -235,6 +251,7 @@ async fn run_client_path(c: &Case) -> Result<String, String> {
     let is_notify = c.path == "cnotify";
     let blen = (c.flen - 48 - QLEN) as usize;
     if c.id == 0 || c.id > 64 { return Err("badcase:client-id".into()); }
+    if c.qlen.is_some() { return Err("badcase:qlen".into()); }
     let body = pattern(blen);
     let recorded: Arc<Mutex<Vec<Vec<u8>>>> = Arc::new(Mutex::new(vec![]));
     let mut tasks = Tasks(vec![]);
@@ -293,7 +310,8 @@ fn run_case(line: &str) -> String {
     let f = fields(line);
     let parsed = (|| -> Option<Case> {
         let limit = match f.get("limit")?.as_str() { "-" => None, s => Some(ph(s)?) };
-        Some(Case { path: f.get("path")?.clone(), limit, flen: ph(f.get("flen")?)?, id: ph(f.get("id")?)? })
+        let qlen = match f.get("qlen") { Some(s) => Some(ph(s)?), None => None };
+        Some(Case { path: f.get("path")?.clone(), limit, flen: ph(f.get("flen")?)?, id: ph(f.get("id")?)?, qlen })
     })();
     let Some(c) = parsed else { return "crash=badcase:parse".into() };
     if c.flen < 48 + QLEN || c.flen > (1 << 31) { return "crash=badcase:flen".into(); }
@@ -315,7 +333,7 @@ fn gen_cases(seed: u64, thorough: bool) -> Vec<String> {
     let nrand = if thorough { 10 } else { 2 };
     let min = 48 + QLEN + 2;
     let mut out = Vec::new();
-    for limit in limits {
+    for limit in limits.clone() {
         for path in PATHS {
             let mut sizes: Vec<u64> = Vec::new();
             match limit {
@@ -337,6 +355,21 @@ fn gen_cases(seed: u64, thorough: bool) -> Vec<String> {
                 };
                 let i = out.len();
                 out.push(format!("i={i} path={path} limit={} flen={} id={} ntf={ntf} ec=0", limit.map(hx).unwrap_or_else(|| "-".into()), hx(flen), hx(id)));
+            }
+        }
+    }
+    // long route paths on the response paths: a replacement that echoed the
+    // request query would itself be over the limit
+    for l in limits.into_iter().flatten() {
+        for path in ["inline", "offreader", "proxy"] {
+            for back in [200u64, 160, 100, 60] {
+                let qlen = l.saturating_sub(back).max(8);
+                for flen in [l + 1, l + 50, 2 * l] {
+                    if flen < 48 + qlen + 2 { continue; }
+                    let id = if rng.chance(1, 3) { rng.boundary(64) } else { rng.next() };
+                    let i = out.len();
+                    out.push(format!("i={i} path={path} limit={} flen={} id={} ntf=0 ec=0 qlen={}", hx(l), hx(flen), hx(id), hx(qlen)));
+                }
             }
         }
     }
